@@ -24,6 +24,10 @@ ViewSnap(v) == [st |-> view[v].st, ty |-> view[v].ty, ext |-> view[v].ext,
 Snapshot == [slots |-> [s \in Slots |-> SlotSnap(s)], blocks |-> OwnedBlocks, views |-> [v \in ViewIds |-> ViewSnap(v)]]
 Rec(op, args) == hist' = Append(hist, [op |-> op, args |-> args, after |-> Snapshot'])
 
+\* a Dump additionally records what the specification says was written: every cell of the storage block in storage order
+\* (padding cells of the curve layouts included - they are zero until written, storage is value-initialised)
+RecDump(s) == hist' = Append(hist, [op |-> "Dump", args |-> [s |-> s], after |-> Snapshot',
+                                    dumped |-> [i \in 1..stream'.size |-> stream'.cells[i - 1]]])
 GInit == Init /\ hist = <<>>
 GNext ==
   \/ (On("Construct") /\ \E s \in ConstructSlots, ty \in Types : \E e \in ExtChoices :
@@ -36,7 +40,7 @@ GNext ==
   \/ (On("MoveAssign") /\ \E d \in Slots, s \in Slots : MoveAssign(d, s) /\ Rec("MoveAssign", [d |-> d, s |-> s]))
   \/ (On("CopyAssign") /\ \E s \in Slots : SelfCopyAssign(s) /\ Rec("CopyAssign", [d |-> s, s |-> s]))
   \/ (On("MoveAssign") /\ \E s \in Slots : SelfMoveAssign(s) /\ Rec("MoveAssign", [d |-> s, s |-> s]))
-  \/ (On("Dump") /\ \E s \in Slots : Dump(s) /\ Rec("Dump", [s |-> s]))
+  \/ (On("Dump") /\ \E s \in Slots : Dump(s) /\ RecDump(s))
   \/ (On("Load") /\ \E s \in Slots : Load(s) /\ Rec("Load", [d |-> s]))
   \/ (On("Destroy") /\ \E s \in Slots : Destroy(s) /\ Rec("Destroy", [s |-> s]))
   \/ (On("Convert") /\ \E d \in Slots, s \in Slots, ty \in Types : Convert(d, s, ty) /\ Rec("Convert", [d |-> d, s |-> s, ty |-> ty]))
